@@ -1,0 +1,31 @@
+//go:build verif
+
+// Contracts for govc (/verif): C02 "Spending requires threshold signatures over the payload hash". Comment-only file.
+// This file holds the SPEC VOCABULARY of C02 only. The function contracts that carry the property are clauses labelled [c02-*]
+// that were added IN PLACE to the (single) contracts of
+//   Script.VerifyFormat, Script.Validate, validateUTXO, validateInputs, Validate, ReadUTXOLock (assumed)   -> zz_contracts_c05_verif.go
+//   validateAggregatedSigners (unchanged: [iff] result == nil <==> SignersOK)                                -> zz_contracts_c06_verif.go
+//   crypto.BatchVerify, crypto.AggregateVerify (assumed)                                                    -> crypto/zz_contracts_c05_verif.go
+
+package common
+
+//@ -- a well-formed threshold script: CMP SUM t with t <= 64; s[2] is the threshold
+//@ spec ScriptOK(s Script) bool = len(s) == 3 && s[0] == OperatorCmp && s[1] == OperatorSum && s[2] <= Operator64
+
+//@ -- the key OBJECTS of a key list are pairwise distinct (keySigs is keyed by object identity)
+//@ spec PtrDistinct(ks []*crypto.Key) bool = forall a, b int :: 0 <= a && a < b && b < len(ks) ==> ks[a] != ks[b]
+
+//@ -- AggWindow(S, lo, n, from, to): in the strictly increasing signer list S, exactly the n entries S[lo .. lo+n) lie in [from, to)
+//@ spec AggWindow(s []int, lo int, n int, from int, to int) bool = 0 <= lo && 0 <= n && lo + n <= len(s) &&
+//@     (forall j int :: 0 <= j && j < lo ==> s[j] < from) &&
+//@     (forall j int :: lo <= j && j < lo + n ==> from <= s[j] && s[j] < to) &&
+//@     (forall j int :: lo + n <= j && j < len(s) ==> to <= s[j])
+
+//@ -- number of entries of a signature map as the CODE computes it (len of a nil map is 0; the spec-level len reads the length component)
+//@ spec SigCount(m map[uint16]*crypto.Signature) mathint = m == nil ? 0 : len(m)
+
+//@ -- Witness2 is the constant-true predicate: it only gives the solver a term to instantiate an existential pair with (trigger)
+//@ uninterp Witness2(a mathint, b mathint) bool
+//@ axiom forall a, b int :: {Witness2(a, b)} Witness2(a, b)
+
+//@ spec NoWrap(offset int, ks []*crypto.Key) bool = offset + len(ks) < 9223372036854775808
